@@ -27,6 +27,24 @@ var properties = map[string][]harnessSpec{
 	"C15": {
 		{Name: "note.VerifC15Semitone", Quick: map[string]int{"C15.maxN": 64}, Thorough: map[string]int{"C15.maxN": 512}, Marks: end},
 	},
+	"C01": {
+		{Name: "play.VerifC01Pitch", Quick: map[string]int{"C01.mode": 1, "C01.maxDegree": 15}, Thorough: map[string]int{"C01.mode": 0, "C01.maxDegree": 15}, Marks: []string{"end", "rejected", "same-order"}},
+		{Name: "play.VerifC01Pitch", Quick: map[string]int{"C01.mode": 2, "C01.maxDegree": 8}, Thorough: map[string]int{"C01.mode": 2, "C01.maxDegree": 22}, Marks: []string{"end", "rejected"}},
+	},
+	"C02": {
+		{Name: "midix.VerifC02NoteStep", Quick: map[string]int{"C02.maxTracks": 3, "C02.maxKeys": 4}, Thorough: map[string]int{"C02.maxTracks": 4, "C02.maxKeys": 6}, Marks: end},
+		{Name: "midix.VerifC02RestStep", Marks: end},
+		{Name: "midix.VerifC02ControlStep", Marks: end},
+		{Name: "midix.VerifC02Ticks1", Solver: "cvc5", TimeoutS: 120, Quick: map[string]int{"C02.numDenoms1": 12, "C02.maxNum1": 255}, Thorough: map[string]int{"C02.numDenoms1": 39, "C02.maxNum1": 1023}, Marks: end},
+		{Name: "midix.VerifC02Ticks2", Solver: "cvc5", TimeoutS: 120, Quick: map[string]int{"C02.numDenoms2": 3, "C02.maxNum2": 15}, Thorough: map[string]int{"C02.numDenoms2": 9, "C02.maxNum2": 63}, Marks: end},
+		{Name: "midix.VerifC02Ticks3", Solver: "cvc5", TimeoutS: 300, Quick: map[string]int{"C02.numDenoms3": 1, "C02.maxNum3": 7}, Thorough: map[string]int{"C02.numDenoms3": 4, "C02.maxNum3": 15}, Marks: end},
+	},
+	"C07": {
+		{Name: "play.VerifC07SettingsStep", Marks: end},
+		{Name: "play.VerifC07Texts", Quick: map[string]int{"C07.maxText": 3}, Thorough: map[string]int{"C07.maxText": 6}, Marks: end},
+		{Name: "play.VerifC07Dynamics", Marks: end},
+		{Name: "play.VerifC07Defaults", Marks: end},
+	},
 	"C06": {
 		{Name: "midix.VerifC06AddStep", Quick: map[string]int{"C06.maxTracks": 8}, Thorough: map[string]int{"C06.maxTracks": 32}, Marks: end},
 		{Name: "midix.VerifC06TwoAdds", Quick: map[string]int{"C06.maxTracks2": 4}, Thorough: map[string]int{"C06.maxTracks2": 8}, Marks: end},
@@ -37,7 +55,7 @@ var properties = map[string][]harnessSpec{
 }
 
 func init() {
-	for _, id := range []string{"C01", "C02", "C03", "C04", "C05", "C07", "C08", "C09", "C10", "C11", "C12", "C16", "C17"} {
+	for _, id := range []string{"C03", "C04", "C05", "C08", "C09", "C10", "C11", "C12", "C16", "C17"} {
 		notApplicable[id] = "check not built yet in this session (work in progress; see DESIGN.md section 4 for the plan)"
 	}
 }
